@@ -338,12 +338,13 @@ def judge_copies(P, A, coloring, orig, ts, viol, acc):
             fwd2 = _maps(c2, 'fwd', nc) if c2._fwd else None
             rev2 = _maps(c2, 'rev', nr) if c2._rev else None
             subs2 = c2._subtractions
-            Jr2, _ = R.rebuild(A, fwd2, rev2, subs2)
+            nsubs2 = _norm_subs(subs2)
+            # identical plain data => identical rebuilt matrix (the original's has just been compared with A)
+            Jr2 = A if (fwd2 == fwd and rev2 == rev and nsubs2 == nsubs) else R.rebuild(A, fwd2, rev2, subs2)[0]
         except Exception as e:
             viol('%s:rebuild-raises:%s' % (where, type(e).__name__), str(e)[:200])
             continue
         diffs = []          # (aspect, text)
-        nsubs2 = _norm_subs(subs2)
         if nsubs2 != nsubs:
             diffs.append(('subtractions-differ', 'subtractions: original %s, copy %s' %
                           (nsubs, subs2 if not subs2 else nsubs2)))
